@@ -12,9 +12,9 @@ mv seed_demo_test.go /tmp/seed/$id.demo_test.go
 echo "== suite with change (demo set aside)"; go test -vet=off -count=1 ./... > /tmp/seed/$id.suite.log 2>&1; s1=$?; tail -2 /tmp/seed/$id.suite.log
 cp /tmp/seed/$id.demo_test.go seed_demo_test.go
 echo "== demo with change (must fail)"; go test -vet=off -count=1 -run '^TestSeedDemo$' ./... > /tmp/seed/$id.demo1.log 2>&1; d1=$?; tail -3 /tmp/seed/$id.demo1.log
-git stash -q
+git apply -R /tmp/seed/$id.patch || { echo 'cannot revert patch'; exit 2; }
 echo "== demo without change (must pass)"; go test -vet=off -count=1 -run '^TestSeedDemo$' ./... > /tmp/seed/$id.demo0.log 2>&1; d0=$?; tail -2 /tmp/seed/$id.demo0.log
-git stash pop -q
+git apply /tmp/seed/$id.patch || { echo 'cannot re-apply patch'; exit 2; }
 echo "suite=$s1 demo_with=$d1 demo_without=$d0"
 if [ $s1 -eq 0 ] && [ $d1 -ne 0 ] && [ $d0 -eq 0 ]; then
   mkdir -p /verif/seeded/$id
